@@ -9,6 +9,12 @@ from .jacobi import (
 )
 
 
+def _scale_modes(seq, cs):
+    """Multiply each mode of seq, shape (N, *x.shape), by its own constant from cs, N elements."""
+    cs = np.reshape(cs, (seq.shape[0],) + (1,) * (seq.ndim - 1))
+    return seq * cs
+
+
 def cheby1(n, x):
     """Chebyshev polynomial of the first kind of order n.
 
@@ -47,7 +53,7 @@ def cheby1_seq(ns, x):
     ns = list(ns)
     cs = 1/jacobi_seq(ns, -.5, -.5, np.ones(1, dtype=x.dtype))
     seq = jacobi_seq(ns, -.5, -.5, x)
-    return seq*cs
+    return _scale_modes(seq, cs)
 
 
 def cheby1_der(n, x):
@@ -88,7 +94,7 @@ def cheby1_der_seq(ns, x):
     ns = list(ns)
     cs = 1/jacobi_seq(ns, -.5, -.5, np.ones(1, dtype=x.dtype))
     seq = jacobi_der_seq(ns, -.5, -.5, x)
-    return seq*cs
+    return _scale_modes(seq, cs)
 
 
 def cheby2(n, x):
@@ -126,16 +132,14 @@ def cheby2_seq(ns, x):
         return has shape (5, 100, 100)
 
     """
-    # gross squeeze -> new axis dance;
-    # seq is (N,M)
-    # cs is (N,)
+    # seq is (N, *x.shape)
     # return of jacobi_seq is (N,1)
-    # drop the 1 to avoid broadcast to (N,N)
-    # then put back 1 for compatibility on the multiply
+    # drop the 1 to avoid broadcast to (N,N); cs is (N,)
+    # _scale_modes aligns cs with the leading (mode) axis of seq
     ns = np.asarray(ns)
     cs = (ns+1)/np.squeeze(jacobi_seq(ns, .5, .5, np.ones(1, dtype=x.dtype)))
     seq = jacobi_seq(ns, .5, .5, x)
-    return seq*cs[:, np.newaxis]
+    return _scale_modes(seq, cs)
 
 
 def cheby2_der(n, x):
@@ -176,7 +180,7 @@ def cheby2_der_seq(ns, x):
     ns = np.asarray(ns)
     cs = (ns + 1)/np.squeeze(jacobi_seq(ns, .5, .5, np.ones(1, dtype=x.dtype)))
     seq = jacobi_der_seq(ns, .5, .5, x)
-    return seq*cs[:, np.newaxis]
+    return _scale_modes(seq, cs)
 
 
 def cheby3(n, x):
@@ -217,7 +221,7 @@ def cheby3_seq(ns, x):
     ns = list(ns)
     cs = 1/jacobi_seq(ns, -.5, .5, np.ones(1, dtype=x.dtype))
     seq = jacobi_seq(ns, -.5, .5, x)
-    return seq*cs
+    return _scale_modes(seq, cs)
 
 
 def cheby3_der(n, x):
@@ -258,7 +262,7 @@ def cheby3_der_seq(ns, x):
     ns = list(ns)
     cs = 1/jacobi_seq(ns, -.5, .5, np.ones(1, dtype=x.dtype))
     seq = jacobi_der_seq(ns, -.5, .5, x)
-    return seq*cs
+    return _scale_modes(seq, cs)
 
 
 def cheby4(n, x):
@@ -299,7 +303,7 @@ def cheby4_seq(ns, x):
     ns = np.asarray(ns)
     cs = (2*ns+1)/np.squeeze(jacobi_seq(ns, .5, -.5, np.ones(1, dtype=x.dtype)))
     seq = jacobi_seq(ns, .5, -.5, x)
-    return seq*cs[:, np.newaxis]
+    return _scale_modes(seq, cs)
 
 
 def cheby4_der(n, x):
@@ -340,4 +344,4 @@ def cheby4_der_seq(ns, x):
     ns = np.asarray(ns)
     cs = (2*ns+1)/np.squeeze(jacobi_seq(ns, .5, -.5, np.ones(1, dtype=x.dtype)))
     seq = jacobi_der_seq(ns, .5, -.5, x)
-    return seq*cs[:, np.newaxis]
+    return _scale_modes(seq, cs)
